@@ -391,10 +391,9 @@ CATEGORY = "other"
 LEVEL_TEXT = ("Deductive per opcode, bounded per program: every path of each opcode function is checked against the consensus spec function for "
               "symbolic stack elements; dispatch tables are checked exhaustively; agreement of whole scripts (conditional splicing vs vfExec, "
               "opcode interaction, final truthiness) is checked on all small programs over reduced alphabets and on seeded random programs of "
-              "<= 40 operations. Claimed as 'other', not 'proof': several obligations fail on the pinned tree (recorded findings: OP_2ROT, "
-              "negative PICK/ROLL counts, CSV disable flag / 5-byte operands, final-stack truthiness, repeated ELSE, OP_RESERVED as small "
-              "integer), the all-integers codec statements need loop invariants, and the int-subclass based timelock code is outside what "
-              "the symbolic engine models.")
+              "<= 40 operations. Claimed as 'other', not 'proof': whole-program agreement is bounded, the all-integers codec statements need loop invariants, "
+              "and one recorded finding (OP_2ROT copies instead of moving; the repository's own test pins it) keeps two obligations failing.  "
+              "The defects these checks found on the pinned tree are repaired by fix: commits in /repo (one `fixed:` line each in /verif/KNOWN_FINDINGS.jsonl).")
 LEVEL_NOTE = ("trusted: pyvc translation (A-ENGINE), spec transcription of interpreter.cpp (A-SPEC), harness wrappers, CPython builtin contracts "
               "(A-BUILTIN), hash functions uninterpreted; termination not verified; whole-program agreement bounded only")
 JOB_TIMEOUT = {"quick": 240, "thorough": 1500}
